@@ -21,6 +21,7 @@ class FakeWriter:
         self.closed = False
         self.chunks: list[tuple[bytes, tuple]] = []
         self.drain_mode = 0  # 0 immediate; n>1: choice point with n options
+        self.park_skip = 0  # drain_mode 9: let this many drains pass before parking (park at the n-th drain of a command)
 
     def write(self, data: bytes):
         if self.closed:
@@ -33,6 +34,9 @@ class FakeWriter:
         w = self.sess.world
         if self.drain_mode > 1:
             # 9: park unconditionally (a scenario's set-up puts a reader into the middle of its command)
+            if self.drain_mode == 9 and self.park_skip > 0:
+                self.park_skip -= 1
+                return None
             c = 1 if self.drain_mode == 9 else w.sched.choose("drain", self.drain_mode, (self.sess.name,))
             if c == 1:
                 # the peer reads slowly: the writing task is parked until the harness' "peer caught up"
